@@ -179,7 +179,36 @@ func bytes300() []byte {
 
 // strings: ASCII, non-ASCII, JSON-escaped, YAML-significant (look like other
 // scalars, indicators, every YAML line-break character: LF, CR, NEL, LS).
-var strAlpha = []any{"a", "é日本", "true", "12", " x ", "a\nb: c\n", "\x00 <&>\"\\\r", "- #\u0085"}
+// (new entries are appended so that indexes in stored witnesses stay valid)
+var strAlpha = []any{"a", "é日本", "true", "12", " x ", "a\nb: c\n", "\x00 <&>\"\\\r", "- #\u0085",
+	"\u0085\u0085", "a\u0085b\u0085c", "\u0085x\u0085\u0085"}
+
+// large repetitive values: they compress far better than 100:1.
+func repBytes(n int, b byte) []byte { return bytes.Repeat([]byte{b}, n) }
+func repString(n int) string        { return strings.Repeat("ab", n/2) }
+func repList(n int) []string {
+	l := make([]string, n)
+	for i := range l {
+		l[i] = "item"
+	}
+	return l
+}
+
+var (
+	bigBytes  = []any{repBytes(4<<10, 0x00), repBytes(64<<10, 0x41), repBytes(1<<20, 0xff)}
+	bigString = []any{repString(4 << 10), repString(64 << 10), repString(1 << 20)}
+	bigList   = []any{repList(1 << 10), repList(16 << 10), repList(128 << 10)}
+)
+
+// bigOf: large values per schema and field. They are asserted like alphabet
+// entries but enumerated alone (not in combinations); their alphabet index
+// follows the beyond entries. Entries from bigThoroughOnly on: thorough tier only.
+var bigOf = map[string]map[string][]any{
+	"val": {"S": bigString, "B": bigBytes, "Sa": bigList},
+	"gen": {"S": bigString, "Ba": bigBytes, "Sa": bigList},
+}
+
+const bigThoroughOnly = 2
 
 var valSchema = &schema{
 	name: "val",
@@ -196,12 +225,12 @@ var valSchema = &schema{
 		{"U32", []any{uint32(1), uint32(math.MaxUint32)}, nil},
 		{"U64", []any{uint64(1), uint64(interop)}, []any{uint64(math.MaxUint64)}},
 		{"S", strAlpha, nil},
-		{"Sp", []any{sp(""), sp("ü")}, nil},
+		{"Sp", []any{sp(""), sp("ü"), sp("\u0085")}, nil},
 		{"B", []any{[]byte{}, []byte{0}, []byte{0xff, 0x00, 0x80}, bytes300()}, nil},
-		{"Sa", []any{[]string{}, []string{""}, []string{"a", "ö"}}, nil},
-		{"M", []any{map[string]string{}, map[string]string{"": ""}, map[string]string{"k": "v", "ключ": "значение"}}, nil},
+		{"Sa", []any{[]string{}, []string{""}, []string{"a", "ö"}, []string{"\u0085", "x\u0085"}}, nil},
+		{"M", []any{map[string]string{}, map[string]string{"": ""}, map[string]string{"k": "v", "ключ": "значение"}, map[string]string{"k\u0085": "\u0085v"}}, nil},
 		{"MI", []any{map[string]int64{}, map[string]int64{"a": -1}, map[string]int64{"a": -1, "b": interop}}, nil},
-		{"In", []any{Inner{N: -1}, Inner{T: "ñ"}, Inner{N: math.MaxInt16, T: "x"}}, nil},
+		{"In", []any{Inner{N: -1}, Inner{T: "ñ"}, Inner{N: math.MaxInt16, T: "x"}, Inner{T: "\u0085"}}, nil},
 		{"Ip", []any{&Inner{}, &Inner{N: 1, T: "é"}}, nil},
 	},
 }
@@ -220,9 +249,9 @@ var genSchema = &schema{
 		{"UI32", []any{uint32(1), uint32(math.MaxUint32)}, nil},
 		{"UI64", []any{uint64(1), uint64(interop)}, []any{uint64(math.MaxUint64)}},
 		{"S", strAlpha, nil},
-		{"Sp", []any{sp(""), sp("ü")}, nil},
-		{"Sa", []any{[]string{}, []string{""}, []string{"a", "ö"}}, nil},
-		{"Sap", []any{&[]string{}, &[]string{"x", "я"}}, nil},
+		{"Sp", []any{sp(""), sp("ü"), sp("\u0085")}, nil},
+		{"Sa", []any{[]string{}, []string{""}, []string{"a", "ö"}, []string{"\u0085", "x\u0085"}}, nil},
+		{"Sap", []any{&[]string{}, &[]string{"x", "я"}, &[]string{"\u0085"}}, nil},
 		{"B", []any{byte(1), byte(0xff)}, nil},
 		{"Bp", []any{bp(0), bp(200)}, nil},
 		{"Ba", []any{[]byte{}, []byte{0}, []byte{0xff, 0x00, 0x80}, bytes300()}, nil},
@@ -238,7 +267,14 @@ var tops = []any{
 	map[string]string(nil), map[string]string{"k": "v", "é": ""},
 	Inner{N: -2, T: "ß"},
 	[]byte(nil), []byte{}, []byte{0}, []byte{1, 2, 3, 0xff, 0x80, 0x00}, bytes300(), []byte("J{}"),
+	// appended: several NELs; large repetitive values (index 21.. ; the 1 MiB ones are thorough only)
+	"x\u0085y\u0085", []string{"\u0085", "\u0085\u0085"}, map[string]string{"\u0085": "\u0085"},
+	repBytes(4<<10, 0x00), repBytes(64<<10, 0x41), repString(64 << 10), repList(16 << 10),
+	repBytes(1<<20, 0xff), repString(1 << 20), repList(128 << 10),
 }
+
+// topsThoroughOnly: first index of the top-level values that only the thorough tier enumerates.
+const topsThoroughOnly = 25
 
 var topSchema = &schema{name: "top"}
 
@@ -379,6 +415,8 @@ func buildG(r ValRef) (v any, sc *schema, assert bool, guards []guard, err error
 		case s[1] >= len(f.alpha) && s[1] < len(f.alpha)+len(f.beyond):
 			x = f.beyond[s[1]-len(f.alpha)]
 			assert = false
+		case s[1] >= len(f.alpha)+len(f.beyond) && s[1] < len(f.alpha)+len(f.beyond)+len(bigOf[sc.name][f.name]):
+			x = bigOf[sc.name][f.name][s[1]-len(f.alpha)-len(f.beyond)]
 		default:
 			return nil, nil, false, nil, errors.New("bad alphabet index")
 		}
@@ -434,6 +472,15 @@ func hasMultiKeyMap(x reflect.Value) bool {
 	return false
 }
 
+func firstDiff(a, b []byte) int {
+	for i := range a {
+		if i >= len(b) || a[i] != b[i] {
+			return i
+		}
+	}
+	return len(a)
+}
+
 // checkArg: clause dump-does-not-modify-its-argument. v is the value that was
 // handed to the dump function, pv the pristine copy taken before.
 func (h *H) checkArg(site, how string, w Witness, v, pv any, sc *schema, guards []guard) bool {
@@ -446,7 +493,7 @@ func (h *H) checkArg(site, how string, w Witness, v, pv any, sc *schema, guards 
 	for _, g := range guards {
 		if !bytes.Equal(g.buf, g.orig) {
 			h.c.Violate("dump-does-not-modify-its-argument", site, "bytes-behind-argument-changed",
-				fmt.Sprintf("%s wrote into the caller's buffer outside the byte slice it was given (shape %s): backing array before %x, after %x", how, shapeNames[w.Value.Shape], g.orig, g.buf), w)
+				fmt.Sprintf("%s wrote into the caller's buffer outside the byte slice it was given (shape %s): backing array of %d bytes, first difference at offset %d; before %s, after %s", how, shapeNames[w.Value.Shape], len(g.orig), firstDiff(g.orig, g.buf), short(g.orig), short(g.buf)), w)
 			return false
 		}
 	}
@@ -1073,9 +1120,9 @@ func isToken(s string) bool {
 // Elements with white space between the media range and ';' are not counted:
 // portbase documents them as invalid (http_test.go "yaml ;charset" => AUTO).
 func acceptNames(hdr string) bool {
-	for _, el := range strings.Split(hdr, ",") {
+	for _, el := range splitOutsideQuotes(hdr, ',') {
 		el = trimOWS(el)
-		rng, _, _ := strings.Cut(el, ";")
+		rng := splitOutsideQuotes(el, ';')[0]
 		if rng != trimOWS(rng) {
 			continue
 		}
@@ -1091,6 +1138,26 @@ func acceptNames(hdr string) bool {
 		}
 	}
 	return false
+}
+
+// splitOutsideQuotes splits at sep where it is not inside a quoted-string
+// (RFC 7230: DQUOTE *( qdtext / quoted-pair ) DQUOTE; "\" escapes the next octet).
+func splitOutsideQuotes(s string, sep byte) []string {
+	var out []string
+	inQ := false
+	start := 0
+	for i := 0; i < len(s); i++ {
+		switch {
+		case inQ && s[i] == '\\':
+			i++
+		case s[i] == '"':
+			inQ = !inQ
+		case !inQ && s[i] == sep:
+			out = append(out, s[start:i])
+			start = i + 1
+		}
+	}
+	return append(out, s[start:])
 }
 
 func caseVariants(s string) []string {
@@ -1117,8 +1184,11 @@ var (
 	rangesLenient = []string{"text/yaml", "application/yml", "json"}
 	rangesOther   = []string{"image/webp", "text/html", "application/xml", "x"}
 	rangesWild    = []string{"*/*", "application/*", "text/*", "*"}
-	paramAlpha    = []string{"", ";q=0.9", "; q=0.5", ";charset=utf-8;q=0.1", ";\tq=1", " ;q=0.9"}
-	outerWS       = [][2]string{{"", ""}, {" ", ""}, {"", " "}, {"\t", " \t"}}
+	paramAlpha    = []string{"", ";q=0.9", "; q=0.5", ";charset=utf-8;q=0.1", ";\tq=1", " ;q=0.9",
+		// media-type parameters: token value, quoted-string values that contain '/', ',', ';', a quoted-pair; accept-ext behind the weight
+		";v=1", `;profile="https://example.org/schema/v1"`, `; charset=utf-8; boundary="x/y"`, `;title="a,b"`, `;note="x;y"`,
+		`;t="say \"hi\", a/b;c"`, `;q=0.8;ext="a/b"`}
+	outerWS = [][2]string{{"", ""}, {" ", ""}, {"", " "}, {"\t", " \t"}}
 	// reduced element alphabet for multi-element headers
 	elements = []string{
 		"application/json", "application/cbor", "application/msgpack", "application/yaml",
@@ -1127,6 +1197,8 @@ var (
 		"*/*", "application/*", "text/*", "*",
 		"application/cbor;q=0.9", "application/yaml; q=0.5", "APPLICATION/MSGPACK", "Application/Json",
 		"application/json ;q=0.9", "*/*;q=0.1", "text/html;q=1.0", "image/*; q=0.8", "",
+		`application/cbor;profile="https://example.org/schema/v1"`, `*/*;ext="a/b"`, `application/yaml;title="a,b"`,
+		`text/html;x="a,application/json,*/*"`, // names text/html only: the rest is inside a quoted-string
 	}
 	separators = []string{",", ", ", " ,\t"}
 )
@@ -1188,7 +1260,8 @@ func singleTypeHeaders() []string {
 	all = append(all, "")
 	for _, r := range all {
 		for _, cv := range caseVariants(r) {
-			for _, p := range []string{"", ";charset=utf-8", "; charset=UTF-8", ";\tq=1", " ;charset=utf-8"} {
+			for _, p := range []string{"", ";charset=utf-8", "; charset=UTF-8", ";\tq=1", " ;charset=utf-8",
+				";v=1", `;profile="https://example.org/schema/v1"`, `; charset=utf-8; boundary="x/y"`, `;title="a,b"`, `;note="x;y"`, `;t="say \"hi\", a/b;c"`} {
 				for _, ws := range outerWS {
 					s := ws[0] + cv + p + ws[1]
 					if !seen[s] {
@@ -1534,11 +1607,13 @@ func main() {
 			"(2) headers: every Accept / Content-Type string of <=n elements from the media-range grammar (4 registered types, lenient spellings, unsupported types, wildcards x case x parameters x optional white space x separators) x 4 values through MimeDump/MimeLoad and DumpToHTTPResponse/LoadFromHTTPResponse; " +
 			"(3) totality: every byte string of length <=3 (thorough: also every 4-byte string starting with a known id), every truncation and single-byte substitution of valid dumps, every gzip-wrapped inner string of length <=2, x load targets {struct, gencode struct, interface}. " +
 			"Byte slices (top-level RAW values and []byte fields) are additionally enumerated in the capacity shapes {cap==len, built by append with spare capacity, window into a larger buffer with live bytes around it}; every dump gets a fresh copy, the loaded value is compared with a pristine copy taken before the dump, the argument and its whole backing array must be unchanged after every dump, and every dump is done twice (equal blobs, earlier blob unchanged). " +
+			"Also: strings with two and three U+0085 (adjacent and apart) and U+0085 in *string, []string, map key+value and nested-struct fields (so that pairs put it into two fields); large repetitive values (4 KiB, 64 KiB; thorough 1 MiB of one byte, a long string of one repeated pair, a long list of equal strings) at top level and in one struct field, through every format and every dump path incl. GZIP/AUTO compression; header parameters with token values, quoted-strings containing '/', ',', ';' and quoted-pairs, and accept-ext behind q. " +
 			"non-trivial = cases with a non-zero value whose dump was produced and loaded back, header strings with more than a bare lower-case type, byte strings whose first byte is a known format/compression id")
 		c.Assume("equality of dumped and loaded value is semantic: nil and empty slices/maps are one value (GenCode, MsgPack and JSON-null have a single representation); pointer nil-ness, lengths and all contents must match")
 		c.Assume("dump-is-repeatable compares the two blobs byte for byte unless the value holds a map with more than one key (MsgPack and CBOR do not sort map keys); then the second blob must load to the value")
 		c.Assume("RAW has no decoder by design: Load answering (RAW, ErrIsRaw) counts as loaded when the bytes behind the format id of the blob the caller holds equal the dumped bytes")
 		c.Assume("formats without a registered media type (GenCode, RAW, AUTO) may be refused by DumpToHTTPRequest/RequestHTTPResponseFormat; the property speaks about data that was dumped")
+		c.Assume("the reference splits header elements and parameters outside quoted-strings (RFC 7230 quoted-string with quoted-pair); text inside a quoted parameter value names nothing")
 		c.Assume("which supported type is chosen for an Accept header is not asserted, only that the dump is served and Content-Type names the body's encoding; elements with white space before ';' and bare/lenient spellings (json, text/yaml, *) are executed but success is not required (http_test.go documents 'yaml ;charset' as invalid)")
 		c.Assume("integers beyond +-(2^53-1) in 64-bit fields are executed and their outcome recorded, nothing is asserted (outside the interoperable range of the quantifier)")
 		c.Assume("values a codec refuses to encode (YAML: DEL and C1 control characters) are not values representable in that format and are not in the alphabet")
@@ -1559,6 +1634,7 @@ func main() {
 
 		// ---- phase 1: value round trips
 		var refs []ValRef
+		nBig := 0
 		for _, sc := range []*schema{valSchema, genSchema} {
 			for _, s := range enumSets(sc, k) {
 				refs = append(refs, ValRef{sc.name, s, 0})
@@ -1569,8 +1645,21 @@ func main() {
 				}
 			}
 			refs = append(refs, ValRef{sc.name, richSet(sc), 0})
+			// large repetitive values, one field at a time
+			for fi, f := range sc.fields {
+				for bi := range bigOf[sc.name][f.name] {
+					if c.Quick() && bi >= bigThoroughOnly {
+						continue
+					}
+					refs = append(refs, ValRef{sc.name, [][2]int{{fi, len(f.alpha) + len(f.beyond) + bi}}, 0})
+					nBig++
+				}
+			}
 		}
 		for i := range tops {
+			if c.Quick() && i >= topsThoroughOnly {
+				continue
+			}
 			refs = append(refs, ValRef{"top", [][2]int{{i, 0}}, 0})
 		}
 		// every value that contains a non-nil byte slice also in the capacity shapes cap > len
@@ -1583,6 +1672,7 @@ func main() {
 			}
 		}
 		c.Extra("values_with_shaped_byte_slices", int64(len(refs)-nBase))
+		c.Extra("values_large_repetitive_struct_fields", int64(nBig))
 		c.Extra("values", int64(len(refs)))
 		c.Extra("value_fields_set_max", int64(k))
 		stopped := new(atomic.Bool)
